@@ -18,7 +18,7 @@ use std::task::{Context, Poll, Waker};
 use std::time::Duration;
 use tokio::io::{AsyncBufRead, AsyncRead, AsyncWrite, ReadBuf};
 
-const RULE: &str = "one case = one execution of MuxStream::into_copy_bidirectional_with_buf over a scripted local byte stream (chunks of 1..8 KiB, Pending later woken by a controller, Pending never woken, partial writes, a shutdown that needs 1-4 polls (self-woken or woken later), EOF at any position, \
+const RULE: &str = "one case = one execution of MuxStream::into_copy_bidirectional_with_buf over a scripted local byte stream (chunks of 1..8 KiB, Pending later woken by a controller, Pending never woken, partial writes, a shutdown that needs 1-4 polls (self-woken or woken later), a flush that needs several polls or never completes, EOF at any position, \
 an error at any position of read / write / flush / shutdown, in particular Ready(Err) right after Ready(Ok(data))) against a far application on a real endpoint pair that writes and finishes, aborts mid-transfer, or never reads (rwnd 1-4). \
 Oracle: the local side received exactly the far application's bytes and the far application exactly the script's bytes (position-addressed), every Push took one unit of credit (credit monitor attached), EOF on one side becomes a half-close on the other while the opposite direction still delivers, \
 the bridge resolves Ok((read, written)) with the true counts once both directions ended, and after an injected error it resolves with that error before the second quiescent point. Non-trivial = bytes crossed the bridge in at least one direction";
@@ -53,6 +53,10 @@ struct IoState {
     w_wake_at: Option<tokio::time::Instant>,
     received: Vec<u8>,
     flush_err: Option<io::ErrorKind>,
+    /// 0 = flush completes at once, 1 = needs `flush_pendings` more polls (self-woken), 2 = stays Pending for ever
+    flush_mode: u8,
+    flush_pendings: u32,
+    flush_polls: u64,
     shutdown_err: Option<io::ErrorKind>,
     shutdown_called: bool,
     /// poll_shutdown answers Pending this many more times before it completes (0 = completes at once); `s_delay_ms` > 0 = woken later by the controller
@@ -188,10 +192,23 @@ impl AsyncWrite for ScriptedIo {
             Some(WEv::Err(k)) => Poll::Ready(Err(Self::err(&mut st, "write", k))),
         }
     }
-    fn poll_flush(self: Pin<&mut Self>, _cx: &mut Context<'_>) -> Poll<io::Result<()>> {
+    fn poll_flush(self: Pin<&mut Self>, cx: &mut Context<'_>) -> Poll<io::Result<()>> {
         let mut st = self.0.lock().unwrap();
+        st.flush_polls += 1;
         if let Some(k) = st.flush_err.take() {
             return Poll::Ready(Err(Self::err(&mut st, "flush", k)));
+        }
+        // a buffered local side (BufWriter, TLS): the flush may need several polls, or be stuck behind a peer that does not read
+        match st.flush_mode {
+            1 => {
+                if st.flush_pendings > 0 {
+                    st.flush_pendings -= 1;
+                    cx.waker().wake_by_ref();
+                    return Poll::Pending;
+                }
+            }
+            2 => return Poll::Pending, // never completes, never wakes
+            _ => {}
         }
         Poll::Ready(Ok(()))
     }
@@ -342,6 +359,8 @@ fn one(st: &mut Stats, seed: u64) {
         _ => {}
     }
     let far_total = far_plan.total_bytes();
+    // (an error injected at flush must be reachable: no stuck flush then)
+    let flush_mode: u8 = if case.err_site == Some("flush") { 0 } else { *rng.pick(&[0u8, 0, 0, 1, 1, 2]) };
     let shutdown_pendings = if rng.chance(1, 3) { rng.range(1, 4) as u32 } else { 0 };
     let s_delay_ms = if rng.chance(1, 2) { rng.range(1, 3) } else { 0 };
     let opener = rng.below(2) as u8;
@@ -360,6 +379,9 @@ fn one(st: &mut Stats, seed: u64) {
         w_wake_at: None,
         received: vec![],
         flush_err: if case.err_site == Some("flush") { Some(kind) } else { None },
+        flush_mode,
+        flush_pendings: 3,
+        flush_polls: 0,
         shutdown_err: if case.err_site == Some("shutdown") { Some(kind) } else { None },
         shutdown_called: false,
         shutdown_pendings,
@@ -440,6 +462,10 @@ fn one(st: &mut Stats, seed: u64) {
     st.cell("far_behaviour", case.far);
     st.cell("local_end", case.local_end);
     st.cell("error_site", case.err_site.unwrap_or("none"));
+    st.cell("local_flush", ["ready", "needs-several-polls", "pending-for-ever"][flush_mode as usize]);
+    if flush_mode == 2 {
+        st.target("runs_with_local_flush_stuck", 1);
+    }
     // data oracles (always)
     let far_key = wl::data_key(seed, sid, 1);
     if let Some(off) = prf_mismatch(far_key, 0, &ios.received) {
